@@ -208,6 +208,25 @@ def hemisphere_of_point2_rule(repo, rep):
                          expected='the northing expressed in the hemisphere of point 1', actual='%s unused' % name)
 
 
+def signature_rule(repo, rep):
+    """the direct and the inverse routine are one pair: after their observations both take (hemisphere, ellipsoid), in that order, as their
+    first optional parameters - `vincdir_utm(z, e, n, brg, dist, 'north')` and `vincinv_utm(z1, e1, n1, z2, e2, n2, 'north')` are the
+    documented positional forms.  An optional parameter slipped in FRONT of them in one of the two silently binds the hemisphere string
+    to it and computes in the default hemisphere."""
+    fd = repo.func('geodepy.geodesy', 'vincdir_utm')
+    fi = repo.func('geodepy.geodesy', 'vincinv_utm')
+    key = 'R-SIBLING::geodepy/geodesy.py::vincdir_utm::optional-parameters'
+    od = [p.name for p in fd.params if p.default is not None]
+    oi = [p.name for p in fi.params if p.default is not None]
+    n = min(len(od), len(oi))
+    if od[:n] == oi[:n] and od[:2] == ['hemisphere', 'ellipsoid']:
+        rep.holds('R-SIBLING', key, where(fd, fd.node), 'vincdir_utm and vincinv_utm take (hemisphere, ellipsoid) as their first optional parameters, in that order')
+    else:
+        rep.violated('R-SIBLING', key, where(fd, fd.node), 'the optional parameters of vincdir_utm are %s, those of its sibling vincinv_utm %s: the hemisphere is no longer the first optional '
+                     'argument of both - a positional call vincdir_utm(z, e, n, brg, dist, \'north\') binds the string to `%s` and the line is computed in the southern hemisphere' % (
+                         od, oi, od[0] if od else '?'), expected="['hemisphere', 'ellipsoid', ...] in both", actual='%s / %s' % (od, oi))
+
+
 def direct_rules(repo, rep):
     hemisphere_of_point2_rule(repo, rep)
     f = repo.func('geodepy.geodesy', 'vincdir_utm')
@@ -217,8 +236,11 @@ def direct_rules(repo, rep):
     E = sym_ellipsoid(ev, repo, 'ellipsoid')
     ps = [p.name for p in f.params]
     syms = ['zone1', 'east1', 'north1', 'grid1to2', 'grid_dist', 'hemisphere']
-    args = dict((ps[i], Rat.sym(syms[i])) for i in range(6))
-    args[ps[6]] = E
+    # the five observations by position, hemisphere and ellipsoid by NAME (their position is the business of the signature rule below)
+    args = dict((ps[i], Rat.sym(syms[i])) for i in range(5))
+    args['hemisphere' if 'hemisphere' in ps else ps[5]] = Rat.sym('hemisphere')
+    args['ellipsoid' if 'ellipsoid' in ps else ps[6]] = E
+    signature_rule(repo, rep)
     val = ev.call_function(f, args)
     loops = ev.loops.get(f.key, [])
     base = 'R-WIRE::geodepy/geodesy.py::vincdir_utm::'
@@ -253,7 +275,28 @@ def direct_rules(repo, rep):
             check_equal(rep, 'R-WIRE', base + 'loop-body', wl, L.post[v], body.items[4],
                         'refinement: point 2 = geo2grid(vincdir(point 1, bearing - convergence, grid_dist/lsf), zone 1); lsf = line_sf(point 1, point 2)')
         else:
-            rep.undecided('R-WIRE', base + 'loop-body', wl, 'no loop-carried line scale factor found')
+            # the line scale factor is the carried variable the ellipsoidal distance is divided by: grid_dist / v in the vincdir call
+            lsfv = None
+            for v in L.carried:
+                if v not in L.pre or not isinstance(L.pre[v], Rat):
+                    continue
+                want_arg = Rat.sym('grid_dist') / L.pre[v]
+                for m in L.carried:
+                    pm = L.post.get(m)
+                    pm = pm.rat if isinstance(pm, CallV) else pm
+                    if not isinstance(pm, Rat):
+                        continue
+                    for k in pm.atoms(deep=True):
+                        at = alg.TABLE.atoms[k]
+                        if at.kind == 'fn' and at.name == 'call:vincdir' and any(isinstance(x, Rat) and x.equals(want_arg) for x in at.args):
+                            lsfv = v
+            if lsfv is not None and lsfv in L.post:
+                body = orc.call('direct_body', lsf=L.pre[lsfv], ellipsoid=Eo, **kw)
+                check_equal(rep, 'R-WIRE', base + 'loop-body', wl, L.post[lsfv], body.items[4],
+                            'refinement: point 2 = geo2grid(vincdir(point 1, bearing - convergence, grid_dist/%s), zone 1); %s = line_sf(point 1, point 2, hemisphere, ellipsoid) - the same '
+                            'line scale factor the inverse routine reports' % (lsfv, lsfv))
+            else:
+                rep.undecided('R-WIRE', base + 'loop-body', wl, 'no loop-carried line scale factor found')
         return
     rep.holds('R-WIRE', base + 'loop-body', wl, 'refinement: az = bearing - convergence(point 1); point 2 = geo2grid(vincdir(point 1, az, grid_dist/%s), zone 1, ellipsoid); %s = line_sf(point 1, point 2, hemisphere, ellipsoid)' % (LSF, LSF))
     if len(found) != 4:
